@@ -30,7 +30,11 @@ func execC17(c Case) string {
 	case "tounit":
 		return u64s(math.Float64bits(bchutil.Amount(atoi64(a[0])).ToUnit(bchutil.AmountUnit(atoi(a[1])))))
 	case "fmt":
-		return hs(bchutil.Amount(atoi64(a[0])).Format(bchutil.AmountUnit(atoi(a[1]))))
+		f := bchutil.Amount(atoi64(a[0])).Format(bchutil.AmountUnit(atoi(a[1])))
+		if atoi(a[1]) == int(bchutil.AmountBCH) && bchutil.Amount(atoi64(a[0])).String() != f {
+			return hs(f) + "!String"
+		}
+		return hs(f)
 	case "mulf":
 		return i64s(int64(bchutil.Amount(atoi64(a[0])).MulF64(math.Float64frombits(atou(a[1])))))
 	}
